@@ -81,7 +81,115 @@ func avlShape(pre, in []int) shapeInfo {
 	return si
 }
 
+// balancedHeights returns, as a bit mask, the heights of all HEIGHT-BALANCED
+// binary trees whose pre-, in- and post-order traversals are exactly the given
+// sequences (values may repeat, so several trees can fit). 0 = none.
+func balancedHeights(pre, in, post []int) uint32 {
+	n := len(in)
+	if len(pre) != n || len(post) != n {
+		return 0
+	}
+	if n == 0 {
+		return 1 // height 0
+	}
+	root := pre[0]
+	if post[n-1] != root {
+		return 0
+	}
+	var out uint32
+	for k := 0; k < n; k++ {
+		if in[k] != root {
+			continue
+		}
+		hl := balancedHeights(pre[1:1+k], in[:k], post[:k])
+		if hl == 0 {
+			continue
+		}
+		hr := balancedHeights(pre[1+k:], in[k+1:], post[k:n-1])
+		if hr == 0 {
+			continue
+		}
+		for a := 0; a < 16; a++ {
+			if hl>>uint(a)&1 == 0 {
+				continue
+			}
+			for b := a - 1; b <= a+1; b++ {
+				if b >= 0 && hr>>uint(b)&1 == 1 {
+					h := a
+					if b > h {
+						h = b
+					}
+					out |= 1 << uint(h+1)
+				}
+			}
+		}
+	}
+	return out
+}
+
+// c02duplicates: small trees with repeated values. The shape is ambiguous from
+// the traversals, so the check is existential: SOME binary tree with exactly
+// these three traversals must be height-balanced (and sorted in-order).
+func c02duplicates(c *core.Ctx) {
+	r := c.R
+	tr := avl.NewOrdered[int]()
+	t := &tr
+	var model []int
+	var hist []string
+	u := r.Range(1, 4)
+	nops := r.Range(4, 60)
+	for i := 0; i < nops; i++ {
+		v := r.Intn(u)
+		if len(model) >= 12 || (len(model) > 0 && r.Chance(2, 5)) {
+			v = model[r.Intn(len(model))]
+			hist = append(hist, fmt.Sprintf("Remove(%d)", v))
+			if !t.Remove(v) {
+				c.Violate("dup:Remove:returned-false", fmt.Sprintf("Remove(%d) of a present value returned false", v), map[string]any{"history": hist})
+				return
+			}
+			for k, x := range model {
+				if x == v {
+					model = append(model[:k:k], model[k+1:]...)
+					break
+				}
+			}
+		} else {
+			hist = append(hist, fmt.Sprintf("Add(%d)", v))
+			t.Add(v)
+			model = append(model, v)
+		}
+		if r.Chance(1, 15) {
+			cl := t.Clone()
+			t = &cl
+			hist = append(hist, "t = t.Clone()")
+		}
+		pre, in, post := t.SlicePreOrder(), t.SliceInOrder(), t.SlicePostOrder()
+		c.Count("duplicate_shapes_checked", 1)
+		if len(in) != len(model) {
+			c.Violate("dup:size", fmt.Sprintf("tree has %d values, %d expected", len(in), len(model)), map[string]any{"history": hist})
+			return
+		}
+		if balancedHeights(pre, in, post) == 0 {
+			c.Violate("dup:"+hist[len(hist)-1][:3]+":unbalanced", fmt.Sprintf("no height-balanced binary tree has the traversals pre=%v in=%v post=%v (values repeat; all consistent shapes were tried)", pre, in, post), map[string]any{"history": hist})
+			return
+		}
+	}
+	c.Count("family_duplicates-small", 1)
+	c.NonTrivial(core.Mix(c.Seed, 2))
+	if c.WantSample() {
+		h := hist
+		if len(h) > 30 {
+			h = h[:30]
+		}
+		c.Sample(map[string]any{"family": "duplicates-small", "history_prefix": h})
+	}
+}
+
 func runC02(c *core.Ctx) {
+	if c.Index%8 == 5 {
+		c02duplicates(c)
+		return
+	}
 	r := c.R
 	var cmpCalls int64
 	cmp := func(a, b int) int {
@@ -184,10 +292,21 @@ func runC02(c *core.Ctx) {
 		}
 		return true
 	}
+	cloneSwaps := r.Chance(1, 3)
+	maybeClone := func() {
+		if cloneSwaps && r.Chance(1, 25) {
+			// continue on a clone: "after every Add or Remove" also holds for trees that came out of Clone
+			cl := t.Clone()
+			t = &cl
+			hist = append(hist, "t = t.Clone()")
+			c.Count("clone_swaps", 1)
+		}
+	}
 	add := func(v int) bool {
 		if present[v] {
 			return true
 		}
+		maybeClone()
 		hist = append(hist, fmt.Sprintf("Add(%d)", v))
 		hh = core.Mix(hh, uint64(v)*2)
 		cmpCalls = 0
@@ -206,6 +325,7 @@ func runC02(c *core.Ctx) {
 		if !present[v] {
 			return true
 		}
+		maybeClone()
 		hist = append(hist, fmt.Sprintf("Remove(%d)", v))
 		hh = core.Mix(hh, uint64(v)*2+1)
 		cmpCalls = 0
